@@ -2557,6 +2557,8 @@ class Region(_IRNode):
         # This ensures that operations can refer to blocks that are not yet cloned
         for block in self.blocks:
             new_block = Block()
+            if clone_name_hints:
+                new_block.name_hint = block.name_hint
             new_blocks.append(new_block)
             block_mapper[block] = new_block
 
